@@ -1416,6 +1416,36 @@ func scenAPIRace(e *Env, args []string, r *rand.Rand) {
 		e.close()
 		return
 	}
+	if args[0] == "poll" {
+		// read-only calls (ListPeers, GetPeer) from two goroutines while another adds and deletes a second peer and the
+		// server is serving: meant for the race detector (every registry access is under the server's lock)
+		stopPoll := make(chan struct{})
+		var wg sync.WaitGroup
+		for k := 0; k < 2; k++ {
+			wg.Add(1)
+			go func() {
+				defer wg.Done()
+				for {
+					select {
+					case <-stopPoll:
+						return
+					default:
+					}
+					_ = e.srv.ListPeers()
+					_, _ = e.srv.GetPeer(p.addr)
+				}
+			}()
+		}
+		for k := 0; k < 15; k++ {
+			q := e.addPeer(2, PeerOpts{LocalAS: localAS, RemoteAS: remoteAS, Hold: 90, Passive: true})
+			time.Sleep(2 * time.Millisecond)
+			q.delete()
+		}
+		close(stopPoll)
+		wg.Wait()
+		e.close()
+		return
+	}
 	done := make(chan struct{}, 2)
 	if args[0] == "add-add" {
 		// the same peer is added by several callers at once while the server is serving and the remote answers every
@@ -1848,7 +1878,7 @@ func init() {
 			"reconnect:stall:ih=100:cr=300", "reconnect:refuse:ih=50:cr=500", "reconnect:close@openSent+cease@established+reset@openConfirm:ih=50:cr=500",
 			"reconnect:dialrace:ih=50:cr=60", "collision:lid=10.0.0.100:first=out:i=0", "collision:lid=10.0.1.44:first=in:i=0",
 			"collision-window:ka:lid=10.0.0.100:i=0", "shutdown:close:established:dir=out:us=300:i=0", "shutdown:delete:established:dir=in:us=300:i=0",
-			"shutdown:close:openConfirm:dir=out:second=established", "shutdown:close:writers:dir=out:us=0:i=0", "api-race:delete-add:i=0", "api-race:close-add:i=0",
+			"shutdown:close:openConfirm:dir=out:second=established", "shutdown:close:writers:dir=out:us=0:i=0", "api-race:delete-add:i=0", "api-race:close-add:i=0", "api-race:poll:i=0",
 			"writers:out:k=3:n=30:end=cease:inside=1:re=1:ms=80:i=0", "writers:in:k=2:n=20:end=cease:inside=1:rhold=0:ms=100:i=0",
 			"damping:out:established:sent.badmarker:expire=1:ms=600", "state-msg:out:established:open:second=1", "hold:out:l=3:r=3:pat=writes:ms=1500",
 			"updates:in:n=30:veto=0:k=0", "inbound-resume:st=established",
